@@ -543,9 +543,9 @@ theorem remove_clear (cs : Bool) (cells : List Cell) (s : Nat) (b : Int) (hb : P
   · exact ⟨rfl, h2⟩
 
 /-- a successful shifting Remove: the own view is shifted (metadata and key rows together) -/
-theorem remove_shift_self (cells : List Cell) (s : Nat) (b e : Int) (hbe : b ≤ e) (he : e ≠ maxI32)
-    (hok : (remove true cells s b e).2 = none) :
-    view (remove true cells s b e).1 s = (view cells s).filterMap (shiftEntry b e (b - e)) := by
+theorem remove_shift_self (cs : Bool) (cells : List Cell) (s : Nat) (b e : Int) (hbe : b ≤ e) (he : e ≠ maxI32)
+    (hok : (remove cs cells s b e).2 = none) :
+    view (remove cs cells s b e).1 s = (view cells s).filterMap (shiftEntry b e (b - e)) := by
   have hpt : ∀ x : Int × Tok × Int, (shiftMeta b e (b - e) x).map (ropeEntry b (b - e)) = shiftEntry b e (b - e) x := by
     intro x
     unfold shiftMeta shiftEntry ropeEntry
@@ -584,6 +584,11 @@ theorem remove_shift_self (cells : List Cell) (s : Nat) (b e : Int) (hbe : b ≤
       have := hall x hx
       rw [← hpt x, this]; rfl
     · have hr1 : r.2 = false := by simpa using h1
+      have hcs : cs = true := by
+        cases cs with
+        | true => rfl
+        | false => simp [hr1, h2] at hok
+      subst hcs
       simp only [hr1, if_false, h2, Bool.not_true, Bool.false_eq_true]
       rw [rope_view_self, hself, List.map_filterMap]
       congr 1
@@ -722,5 +727,46 @@ theorem oldestGo_spec (ss : List Slot) (k oldest : Nat) (best r : Option Nat)
       · exact Or.inr hh
     · simp only [hc, Bool.false_eq_true, if_false] at h
       exact lift _ (ih (k + 1) _ _ h)
+
+
+/-! ## batches of one sequence -/
+
+/-- the batch processBatch assembles for one sequence: `new` at positions `start, start+1, …` -/
+def mkBatch (id : Nat) : Nat → List Tok → List BTok
+  | _, [] => []
+  | start, t :: ts => ⟨t, start, id⟩ :: mkBatch id (start + 1) ts
+
+theorem mkBatch_length (id start : Nat) (l : List Tok) : (mkBatch id start l).length = l.length := by
+  induction l generalizing start with
+  | nil => rfl
+  | cons t ts ih => simp [mkBatch, ih]
+
+theorem mkBatch_view (id start : Nat) (l : List Tok) (t : Nat) :
+    view ((mkBatch id start l).map BTok.cell) t = if t = id then canonFrom start l else [] := by
+  induction l generalizing start with
+  | nil => simp [mkBatch, canonFrom]
+  | cons x xs ih =>
+    simp only [mkBatch, List.map_cons, view_cons, ih]
+    by_cases h : t = id
+    · subst h; simp [BTok.cell, Cell.has, Cell.key, canonFrom]
+    · have : (BTok.cell ⟨x, start, id⟩).has t = false := by
+        simp [BTok.cell, Cell.has]; exact h
+      simp [this, h]
+
+theorem mkBatch_pos (id start : Nat) (l : List Tok) : ∀ b ∈ mkBatch id start l, b.pos < start + l.length := by
+  induction l generalizing start with
+  | nil => intro b hb; cases hb
+  | cons x xs ih =>
+    intro b hb
+    simp only [mkBatch, List.mem_cons] at hb
+    rcases hb with rfl | hb
+    · simp
+    · have := ih (start + 1) b hb; simp only [List.length_cons]; omega
+
+theorem shiftDiscard_le (numCtx len keep : Nat) (h : keep < numCtx) :
+    keep + shiftDiscard numCtx len keep ≤ len ∨ shiftDiscard numCtx len keep = 0 := by
+  unfold shiftDiscard
+  simp only
+  omega
 
 end OllamaVerif.Runner
